@@ -93,13 +93,64 @@ Definition static_same (progs : list prog) (st : bool) (s s' : state) : Prop :=
 Lemma pc_exist_same s s' : same s s' -> pc_exist (dat s) -> pc_exist (dat s').
 Proof. intros [D _] H. rewrite D. exact H. Qed.
 
+Lemma with_gas_noop s g : noop s (with_gas s g).
+Proof. unfold noop; cbn. splits; auto; try lia. apply deq_refl. Qed.
+
+Lemma with_gas_good s g : wf s -> good s (with_gas s g).
+Proof. intros W. apply good_noop; auto. apply with_gas_noop. Qed.
+
+Lemma with_gas_same s g : same s (with_gas s g).
+Proof. split; auto. Qed.
+
+Lemma charge_ok c s s' : charge c s = Some s' -> wf s -> good s s' /\ same s s' /\ gas s' <= gas s /\ noop s s'.
+Proof.
+  unfold charge. destruct (N.ltb_spec (gas s) c) as [Hlt|Hge]; intros H W; inversion H; subst.
+  splits; auto using with_gas_good, with_gas_same, with_gas_noop. cbn. lia.
+Qed.
+
+Lemma revert_gas id s s' : revert id s = Some s' -> gas s' = gas s.
+Proof. unfold revert. destruct (find_rev id (revs s)) as [[n r]|]; intros H; inversion H; subst; auto. Qed.
+
+Lemma pop_oracle_gas s x s' : pop_oracle s = (x, s') -> gas s' = gas s.
+Proof. unfold pop_oracle. destruct (oracle s); intros H; inversion H; subst; auto. Qed.
+
+Lemma push_gas p s : gas (push p s) = gas s.
+Proof. unfold push. destruct (p (dat s)); auto. Qed.
+
+Lemma noop_trans_good s1 s2 s3 : noop s1 s2 -> noop s2 s3 -> noop s1 s3.
+Proof. apply noop_trans. Qed.
+
+Lemma forward_le req avail : forward req avail <= avail.
+Proof.
+  unfold forward. pose proof (N.le_sub_l avail (avail / 64)). pose proof (N.le_min_r req (avail - avail / 64)). lia.
+Qed.
+
+Lemma stipend_le_base kind target value d : call_stipend kind value <= call_base kind target value d.
+Proof.
+  unfold call_stipend, call_base, c_stipend, c_value, c_newacct.
+  destruct kind; destruct (value =? 0); try destruct (empty_of d target); lia.
+Qed.
+
+(* the gas of a frame after a call: what it kept plus what came back is no more than it had *)
+Lemma call_gas_le g base req stip r :
+  base <= g -> stip <= base -> r <= forward req (g - base) + stip ->
+  (g - base - forward req (g - base)) + r <= g.
+Proof. intros B S R. pose proof (forward_le req (g - base)). lia. Qed.
+
+Lemma create_gas_le g r : r <= g - g / 64 -> g / 64 + r <= g.
+Proof.
+  intros R. assert (g / 64 <= g) by (apply N.div_le_upper_bound; lia). lia.
+Qed.
+
 Section Frames.
   Variable progs : list prog.
   Variable rec : ctx -> N -> state -> rres.
 
+  (* what every piece of execution guarantees: journal discipline, own-hash logs, static purity under the guards, and
+     no more gas afterwards than before *)
   Definition rec_ok : Prop :=
     forall cx c s o l s', wf s -> rec cx c s = (o, l, s') ->
-      good s s' /\ static_same progs (static cx) s s'.
+      good s s' /\ static_same progs (static cx) s s' /\ gas s' <= gas s.
 
   Hypothesis Hrec : rec_ok.
 
@@ -109,25 +160,35 @@ Section Frames.
     (let '(_, _, s4) := r in good (snd (snapshot s)) s4) ->
     finish_call (fst (snapshot s)) keep r = (o, l, s') ->
     good s s' /\ (is_fail o = true -> noop s s') /\
-    ((let '(_, _, s4) := r in same s s4) -> same s s').
+    ((let '(_, _, s4) := r in same s s4) -> same s s') /\
+    (let '(_, _, s4) := r in gas s' <= gas s4) /\
+    (forall c, o = OErr c -> gas s' = 0).
   Proof.
     intros W G H. destruct r as [[o4 l4] s4].
     pose proof (good_trans _ _ _ (good_snapshot s W) G) as G04.
     unfold finish_call in H.
     destruct o4;
-      try (inversion H; subst; splits; auto; cbn; discriminate);
+      try (inversion H; subst; splits; auto; try lia; try (cbn; discriminate); intros; discriminate);
       destruct (revert_restores s s4 (g_ext _ _ G)) as (s5 & R5 & N5 & _);
-      rewrite R5 in H; inversion H; subst; splits; auto using good_noop;
-      intros S; eapply revert_same; eauto; apply G.
+      pose proof (revert_gas _ _ _ R5) as RG;
+      rewrite R5 in H; inversion H; subst; splits;
+      try (apply good_noop; auto; eapply noop_trans; [exact N5 | apply with_gas_noop]);
+      try (intros _; eapply noop_trans; [exact N5 | apply with_gas_noop]);
+      try (intros S; eapply same_trans; [eapply revert_same; eauto; apply G | apply with_gas_same]);
+      auto using good_noop; try (cbn; lia); try (intros; discriminate);
+      try (intros S; eapply revert_same; eauto; apply G); try (intros; reflexivity).
   Qed.
 
   Lemma run_target_ok cx' a s o l s' :
     wf s -> run_target rec cx' a s = (o, l, s') ->
-    good s s' /\ static_same progs (static cx') s s'.
+    good s s' /\ static_same progs (static cx') s s' /\ gas s' <= gas s.
   Proof.
     intros W H. unfold run_target in H. destruct (precompile a).
-    - destruct (pop_oracle s) as [f s1] eqn:P. inversion H; subst.
-      destruct (pop_oracle_good _ _ _ W P); split; auto. intros _ _ _; auto.
+    - destruct (pop_oracle s) as [f s1] eqn:P.
+      destruct (pop_oracle_good _ _ _ W P) as [G1 S1]. pose proof (pop_oracle_gas _ _ _ P) as PG.
+      destruct (N.ltb_spec (gas s1) (pc_gas a)); inversion H; subst; splits;
+        try (eapply good_trans; [exact G1 | apply with_gas_good; apply G1]);
+        try (intros _ _ _; eapply same_trans; [exact S1 | apply with_gas_same]); cbn; lia.
     - eapply Hrec; eauto.
   Qed.
 
@@ -136,13 +197,14 @@ Section Frames.
     wf s -> good (snd (snapshot s)) s3 ->
     finish_call (fst (snapshot s)) keep (run_target rec cx' a s3) = (o, l, s') ->
     good s s' /\ (is_fail o = true -> noop s s') /\
-    (static cx' = true -> custom_free progs -> pc_exist (dat s) -> same s s3 -> same s s').
+    (static cx' = true -> custom_free progs -> pc_exist (dat s) -> same s s3 -> same s s') /\
+    gas s' <= gas s3 /\ (forall c, o = OErr c -> gas s' = 0).
   Proof.
     intros W G3 H.
     destruct (run_target rec cx' a s3) as [[o4 l4] s4] eqn:R.
-    destruct (run_target_ok _ _ _ _ _ _ (g_wf _ _ G3) R) as [G4 S4].
-    destruct (finish_call_ok s keep (o4, l4, s4) o l s' W (good_trans _ _ _ G3 G4) H) as (A & B & C).
-    splits; auto. intros St CF PE S3. apply C. eapply same_trans; [exact S3|].
+    destruct (run_target_ok _ _ _ _ _ _ (g_wf _ _ G3) R) as (G4 & S4 & L4).
+    destruct (finish_call_ok s keep (o4, l4, s4) o l s' W (good_trans _ _ _ G3 G4) H) as (A & B & C & D & E).
+    splits; auto; try lia. intros St CF PE S3. apply C. eapply same_trans; [exact S3|].
     apply S4; auto. eapply pc_exist_same; eauto.
   Qed.
 
@@ -150,12 +212,13 @@ Section Frames.
   Lemma call_body_ok cx payer target value s o l s' :
     wf s -> call_body rec cx (fst (snapshot s)) payer target value (snd (snapshot s)) = (o, l, s') ->
     good s s' /\ (is_fail o = true -> noop s s') /\
-    (static cx = true -> custom_free progs -> pc_exist (dat s) -> value = 0 -> same s s').
+    (static cx = true -> custom_free progs -> pc_exist (dat s) -> value = 0 -> same s s') /\
+    gas s' <= gas s /\ (forall c, o = OErr c -> gas s' = 0).
   Proof.
     intros W H. unfold call_body in H. cbv zeta in H.
     set (s1 := snd (snapshot s)) in *.
     assert (G1 : good s s1) by (apply good_snapshot; auto).
-    assert (GO : forall s2, good s1 s2 ->
+    assert (GO : forall s2, good s1 s2 -> gas s2 = gas s ->
               forall o l s',
               (match precompile target with
                | Some _ => finish_call (fst (snapshot s)) true
@@ -167,65 +230,76 @@ Section Frames.
                           (run_target rec (mkCtx target (static cx) (depth cx + 1) (origin cx)) target (push (transfer payer target value) s2))
                end) = (o, l, s') ->
               good s s' /\ (is_fail o = true -> noop s s') /\
-              (static cx = true -> custom_free progs -> pc_exist (dat s) -> value = 0 -> same s s2 -> same s s')).
-    { intros s2 G2 o0 l0 s0 H0.
+              (static cx = true -> custom_free progs -> pc_exist (dat s) -> value = 0 -> same s s2 -> same s s') /\
+              gas s' <= gas s /\ (forall c, o = OErr c -> gas s' = 0)).
+    { intros s2 G2 E2 o0 l0 s0 H0.
       set (s3 := push (transfer payer target value) s2) in *.
       assert (G3 : good s1 s3).
       { eapply good_trans; [exact G2|]. apply good_push; auto using transfer_ok, kl_transfer. apply G2. }
+      assert (E3 : gas s3 = gas s) by (unfold s3; rewrite push_gas; auto).
       assert (S3 : value = 0 -> same s s2 -> same s s3).
       { intros V X. eapply same_trans; [exact X|]. subst value. apply push_id. apply transfer_zero. }
       destruct (precompile target).
-      - destruct (enter_ok _ _ _ _ _ _ _ _ W G3 H0) as (A & B & C). splits; auto.
+      - destruct (enter_ok _ _ _ _ _ _ _ _ W G3 H0) as (A & B & C & D & E). splits; auto. lia.
       - destruct (code_of (dat s3) target =? 0).
         + inversion H0; subst. splits.
           * eapply good_trans; eauto.
           * cbn; discriminate.
           * intros _ _ _ V X. apply S3; auto.
-        + destruct (enter_ok _ _ _ _ _ _ _ _ W G3 H0) as (A & B & C). splits; auto. }
+          * lia.
+          * intros; discriminate.
+        + destruct (enter_ok _ _ _ _ _ _ _ _ W G3 H0) as (A & B & C & D & E). splits; auto. lia. }
     destruct (exists_of (dat s1) target) eqn:EX.
-    - destruct (GO s1 (good_refl _ (g_wf _ _ G1)) _ _ _ H) as (A & B & C). splits; auto.
+    - destruct (GO s1 (good_refl _ (g_wf _ _ G1)) eq_refl _ _ _ H) as (A & B & C & D & E). splits; auto.
       intros St CF PE V. apply C; auto. apply same_snapshot.
     - destruct (precompile target) eqn:PC.
       + assert (G2 : good s1 (push (get_or_new target) s1))
           by (apply good_push; auto using get_or_new_ok, kl_get_or_new; apply G1).
-        pose proof (GO _ G2 o l s') as X. destruct (X H) as (A & B & C). splits; auto.
+        pose proof (GO _ G2 (push_gas _ _) o l s') as X. destruct (X H) as (A & B & C & D & E). splits; auto.
         intros St CF PE V. specialize (PE _ _ PC). change (dat s1) with (dat s) in EX. congruence.
       + destruct (value =? 0) eqn:V0.
-        * inversion H; subst. splits; auto. cbn; discriminate. intros; apply same_snapshot.
+        * inversion H; subst. splits; auto; try (cbn; discriminate); try (intros; discriminate). intros; apply same_snapshot. cbn; lia.
         * assert (G2 : good s1 (push (get_or_new target) s1))
             by (apply good_push; auto using get_or_new_ok, kl_get_or_new; apply G1).
-          pose proof (GO _ G2 o l s') as X. destruct (X H) as (A & B & C). splits; auto.
+          pose proof (GO _ G2 (push_gas _ _) o l s') as X. destruct (X H) as (A & B & C & D & E). splits; auto.
           intros St CF PE V. subst value. discriminate.
   Qed.
 
   Lemma do_call_ok cx kind target value s o l s' :
     wf s -> do_call rec cx kind target value s = (o, l, s') ->
     good s s' /\ (is_fail o = true -> noop s s') /\
-    (static cx = true -> custom_free progs -> pc_exist (dat s) -> (kind = KCall -> value = 0) -> same s s').
+    (static cx = true -> custom_free progs -> pc_exist (dat s) -> (kind = KCall -> value = 0) -> same s s') /\
+    gas s' <= gas s.
   Proof.
     intros W H. unfold do_call in H.
     destruct (max_depth <? depth cx).
-    { inversion H; subst. splits; auto using good_refl, noop_refl, same_refl. }
+    { inversion H; subst. splits; auto using good_refl, noop_refl, same_refl. lia. }
     destruct kind.
     - destruct (negb (value =? 0) && (bal (dat s) (self cx) <? value)).
-      { inversion H; subst. splits; auto using good_refl, noop_refl, same_refl. }
-      destruct (call_body_ok _ _ _ _ _ _ _ _ W H) as (A & B & C). splits; auto.
+      { inversion H; subst. splits; auto using good_refl, noop_refl, same_refl. lia. }
+      destruct (call_body_ok _ _ _ _ _ _ _ _ W H) as (A & B & C & D & _). splits; auto.
     - destruct (bal (dat s) (self cx) <? value).
-      { inversion H; subst. splits; auto using good_refl, noop_refl, same_refl. }
+      { inversion H; subst. splits; auto using good_refl, noop_refl, same_refl. lia. }
       cbv zeta in H.
-      destruct (enter_ok _ _ _ _ _ _ _ _ W (good_refl _ (snapshot_wf _ W)) H) as (A & B & C).
+      destruct (enter_ok _ _ _ _ _ _ _ _ W (good_refl _ (snapshot_wf _ W)) H) as (A & B & C & D & _).
       splits; auto. intros St CF PE _. apply C; auto. apply same_snapshot.
     - cbv zeta in H.
-      destruct (enter_ok _ _ _ _ _ _ _ _ W (good_refl _ (snapshot_wf _ W)) H) as (A & B & C).
+      destruct (enter_ok _ _ _ _ _ _ _ _ W (good_refl _ (snapshot_wf _ W)) H) as (A & B & C & D & _).
       splits; auto. intros St CF PE _. apply C; auto. apply same_snapshot.
     - cbv zeta in H.
       set (s1 := snd (snapshot s)) in *.
       assert (G2 : good s1 (push (add_balance target 0) s1))
         by (apply good_push; auto using add_balance_ok, kl_add_balance; apply snapshot_wf; auto).
-      destruct (enter_ok _ _ _ _ _ _ _ _ W G2 H) as (A & B & C).
-      splits; auto. intros _ CF PE _. apply C; auto.
+      destruct (enter_ok _ _ _ _ _ _ _ _ W G2 H) as (A & B & C & D & _).
+      splits; auto.
+      intros _ CF PE _. apply C; auto.
       eapply same_trans; [apply same_snapshot|]. apply push_id. apply add_balance_zero.
   Qed.
+
+  (* a frame that was entered and ended with an error other than REVERT hands back no gas *)
+  Lemma call_body_error_no_gas cx payer target value s c l s' :
+    wf s -> call_body rec cx (fst (snapshot s)) payer target value (snd (snapshot s)) = (OErr c, l, s') -> gas s' = 0.
+  Proof. intros W H. destruct (call_body_ok _ _ _ _ _ _ _ _ W H) as (_ & _ & _ & _ & E). eapply E; eauto. Qed.
 
   (* a STATICCALL leaves data and journal untouched whatever the callee does and however it ends *)
   Lemma static_call_same cx target value s o l s' :
@@ -237,7 +311,7 @@ Section Frames.
     cbv zeta in H. set (s1 := snd (snapshot s)) in *.
     assert (G2 : good s1 (push (add_balance target 0) s1))
       by (apply good_push; auto using add_balance_ok, kl_add_balance; apply snapshot_wf; auto).
-    destruct (enter_ok _ _ _ _ _ _ _ _ W G2 H) as (A & B & C).
+    destruct (enter_ok _ _ _ _ _ _ _ _ W G2 H) as (A & B & C & _).
     apply C; auto.
     eapply same_trans; [apply same_snapshot|]. apply push_id. apply add_balance_zero.
   Qed.
@@ -248,16 +322,16 @@ Section Frames.
 
   Lemma do_authcall_ok cx authority target value s o l s' :
     wf s -> do_authcall rec cx authority target value s = (o, l, s') ->
-    good s s' /\ (is_fail o = true -> noop s s' \/ noop (authcall_pre authority s) s').
+    good s s' /\ (is_fail o = true -> noop s s' \/ noop (authcall_pre authority s) s') /\ gas s' <= gas s.
   Proof.
     intros W H. unfold do_authcall in H.
-    destruct (max_depth <? depth cx). { inversion H; subst. split; auto using good_refl, noop_refl. }
+    destruct (max_depth <? depth cx). { inversion H; subst. splits; auto using good_refl, noop_refl. lia. }
     destruct (negb (value =? 0) && (bal (dat s) (origin cx) <? value)).
-    { inversion H; subst. split; auto using good_refl, noop_refl. }
+    { inversion H; subst. splits; auto using good_refl, noop_refl. lia. }
     cbv zeta in H. fold (authcall_pre authority s) in H.
     assert (G0 : good s (authcall_pre authority s)) by (apply good_push; auto using set_nonce_ok, kl_set_nonce).
-    destruct (call_body_ok _ _ _ _ _ _ _ _ (g_wf _ _ G0) H) as (A & B & _).
-    split; [eapply good_trans; eauto | auto].
+    destruct (call_body_ok _ _ _ _ _ _ _ _ (g_wf _ _ G0) H) as (A & B & _ & D & _).
+    splits; [eapply good_trans; eauto | auto |]. unfold authcall_pre in D. rewrite push_gas in D. exact D.
   Qed.
 
   (* the state a failed creation is compared with: the effects evm.create performs before its Snapshot *)
@@ -265,17 +339,17 @@ Section Frames.
     let s0 := with_oracle s orc in
     push (acl_add address) (push (set_nonce (self cx) (wrap64 (nonce_of (dat s0) (self cx) + 1))) s0).
 
-  (* the state after a creation whose code deposit could not be paid: NOT the state before it *)
   Lemma do_create_ok cx value init s o l s' :
     wf s -> do_create progs rec cx value init s = (o, l, s') ->
     good s s' /\
     (is_fail o = true ->
-       noop s s' \/ exists address orc, oracle s = address :: orc /\ noop (create_pre cx address orc s) s').
+       noop s s' \/ exists address orc, oracle s = address :: orc /\ noop (create_pre cx address orc s) s') /\
+    gas s' <= gas s.
   Proof.
     intros W H. unfold do_create in H.
-    destruct (max_depth <? depth cx). { inversion H; subst. split; auto using good_refl, noop_refl. }
-    destruct (bal (dat s) (self cx) <? value). { inversion H; subst. split; auto using good_refl, noop_refl. }
-    destruct (oracle s) as [|address orc] eqn:O. { inversion H; subst. split; auto using good_refl. cbn; discriminate. }
+    destruct (max_depth <? depth cx). { inversion H; subst. splits; auto using good_refl, noop_refl. lia. }
+    destruct (bal (dat s) (self cx) <? value). { inversion H; subst. splits; auto using good_refl, noop_refl. lia. }
+    destruct (oracle s) as [|address orc] eqn:O. { inversion H; subst. splits; auto using good_refl. cbn; discriminate. lia. }
     cbv zeta in H.
     set (s0 := with_oracle s orc) in *.
     set (s1 := push (set_nonce (self cx) (wrap64 (nonce_of (dat s0) (self cx) + 1))) s0) in *.
@@ -284,9 +358,13 @@ Section Frames.
     assert (G1 : good s0 s1) by (apply good_push; auto using set_nonce_ok, kl_set_nonce; apply G0).
     assert (G2 : good s1 s2) by (apply good_push; auto using acl_add_ok, kl_acl_add; apply G1).
     assert (G02 : good s s2) by (eauto using good_trans).
+    assert (E2 : gas s2 = gas s) by (unfold s2, s1; rewrite !push_gas; reflexivity).
     assert (P2 : s2 = create_pre cx address orc s) by reflexivity.
     destruct (negb (nonce_of (dat s2) address =? 0) || negb (code_of (dat s2) address =? 0)).
-    { inversion H; subst. split; auto. intros _. right. exists address, orc. split; auto. rewrite <- P2. apply noop_refl. }
+    { inversion H; subst. splits.
+      - eapply good_trans; [exact G02 | apply with_gas_good; apply G02].
+      - intros _. right. exists address, orc. split; auto. rewrite <- P2. apply with_gas_noop.
+      - cbn; lia. }
     set (s3 := snd (snapshot s2)) in *.
     set (s4 := push (get_or_new address) s3) in *.
     set (s5 := push (set_nonce address 1) s4) in *.
@@ -296,92 +374,123 @@ Section Frames.
     assert (G5 : good s4 s5) by (apply good_push; auto using set_nonce_ok, kl_set_nonce; apply G4).
     assert (G6 : good s5 s6) by (apply good_push; auto using transfer_ok, kl_transfer; apply G5).
     assert (G36 : good s3 s6) by (eauto using good_trans).
+    assert (E6 : gas s6 = gas s) by (unfold s6, s5, s4; rewrite !push_gas; exact E2).
     destruct (rec (mkCtx address (static cx) (depth cx + 1) (origin cx)) init s6) as [[o7 l7] s7] eqn:R.
-    destruct (Hrec _ _ _ _ _ _ (g_wf _ _ G6) R) as [G7 _].
+    destruct (Hrec _ _ _ _ _ _ (g_wf _ _ G6) R) as (G7 & _ & L7).
     assert (G37 : good s3 s7) by (eauto using good_trans).
     assert (FC : forall o7', finish_call (fst (snapshot s2)) true (o7', l7, s7) = (o, l, s') ->
                  good s s' /\ (is_fail o = true -> noop s s' \/
-                   exists address0 orc0, address :: orc = address0 :: orc0 /\ noop (create_pre cx address0 orc0 s) s')).
+                   exists address0 orc0, address :: orc = address0 :: orc0 /\ noop (create_pre cx address0 orc0 s) s') /\
+                 gas s' <= gas s).
     { intros o7' HF.
-      destruct (finish_call_ok s2 true (o7', l7, s7) o l s' (g_wf _ _ G02) G37 HF) as (A & B & _).
-      split; [eapply good_trans; eauto|]. intros F. right. exists address, orc. split; auto. }
+      destruct (finish_call_ok s2 true (o7', l7, s7) o l s' (g_wf _ _ G02) G37 HF) as (A & B & _ & D & _).
+      splits; [eapply good_trans; eauto | | lia]. intros F. right. exists address, orc. split; auto. }
     destruct o7; try (apply FC in H; exact H).
     destruct (ret_big (lookup progs init)); [apply FC in H; exact H|].
-    destruct (hd 0 (oracle s6) =? 1000).
-    - inversion H; subst. split; [|cbn; discriminate].
+    match type of H with (if ?c then _ else _) = _ => destruct c end.
+    - inversion H; subst. splits; [|cbn; discriminate | lia].
       eapply good_trans; [exact G02|]. eapply good_trans; [exact G3|]. exact G37.
-    - inversion H; subst. split; [|cbn; discriminate].
+    - inversion H; subst. splits; [|cbn; discriminate | rewrite push_gas; cbn; lia].
       eapply good_trans; [exact G02|]. eapply good_trans; [exact G3|]. eapply good_trans; [exact G37|].
-      apply good_push; auto using set_code_ok, kl_set_code. apply G37.
+      eapply good_trans; [apply with_gas_good; apply G37|].
+      apply good_push; auto using set_code_ok, kl_set_code. apply with_gas_good; apply G37.
   Qed.
 
-  Lemma do_selfdestruct_good cx b s : wf s -> good s (do_selfdestruct cx b s).
+  Lemma do_selfdestruct_good cx b s : wf s -> good s (do_selfdestruct cx b s) /\ gas (do_selfdestruct cx b s) = gas s.
   Proof.
     intros W. unfold do_selfdestruct.
     set (s1 := if suicided_of (dat s) (self cx) then s else push (add_refund 24000) s).
     assert (G1 : good s s1).
     { unfold s1. destruct (suicided_of (dat s) (self cx)); [apply good_refl; auto|].
       apply good_push; auto using add_refund_ok, kl_add_refund. }
+    assert (E1 : gas s1 = gas s) by (unfold s1; destruct (suicided_of (dat s) (self cx)); auto using push_gas).
     set (s2 := push (add_balance b (bal (dat s1) (self cx))) s1).
     assert (G2 : good s1 s2) by (apply good_push; auto using add_balance_ok, kl_add_balance; apply G1).
-    eapply good_trans; [exact G1|]. eapply good_trans; [exact G2|].
-    apply good_push; auto using suicide_ok, kl_suicide. apply G2.
+    split.
+    - eapply good_trans; [exact G1|]. eapply good_trans; [exact G2|].
+      apply good_push; auto using suicide_ok, kl_suicide. apply G2.
+    - rewrite push_gas. unfold s2. rewrite push_gas. exact E1.
   Qed.
 
   (* the custom opcodes change the state through journalled primitives only *)
   Lemma good_set_state a k v s : wf s -> good s (push (set_state a k v) s).
   Proof. intros; apply good_push; auto using set_state_ok, kl_set_state. Qed.
 
-  Lemma do_stake_good cx t s : wf s -> good s (do_stake cx t s).
+  Lemma do_stake_good cx t s : wf s -> good s (do_stake cx t s) /\ gas (do_stake cx t s) = gas s.
   Proof.
     intros W. unfold do_stake.
-    destruct (reg_status (dat s) (self cx) =? 0); [apply good_refl; auto|].
-    destruct (t =? 0); [apply good_refl; auto|].
-    destruct (bal (dat s) (self cx) <? t * unit18); [apply good_refl; auto|].
+    destruct (reg_status (dat s) (self cx) =? 0); [split; auto using good_refl|].
+    destruct (t =? 0); [split; auto using good_refl|].
+    destruct (bal (dat s) (self cx) <? t * unit18); [split; auto using good_refl|].
     cbv zeta.
     set (s1 := push (sub_balance (self cx) (t * unit18)) s).
     assert (G1 : good s s1) by (apply good_push; auto using sub_balance_ok, kl_sub_balance).
-    eapply good_trans; [exact G1|].
-    eapply good_trans; [apply good_set_state; apply G1|].
-    apply good_set_state. apply good_set_state. apply G1.
+    split.
+    - eapply good_trans; [exact G1|].
+      eapply good_trans; [apply good_set_state; apply G1|].
+      apply good_set_state. apply good_set_state. apply G1.
+    - unfold s1; rewrite !push_gas; reflexivity.
   Qed.
 
-  Lemma take_stake_good a m s : wf s -> good s (take_stake a m s).
+  Lemma take_stake_good a m s : wf s -> good s (take_stake a m s) /\ gas (take_stake a m s) = gas s.
   Proof.
     intros W. unfold take_stake. cbv zeta.
     destruct (reg_stake (dat s) a - m <? min_stake).
-    - eapply good_trans; [apply good_set_state; auto|]. apply good_set_state. apply good_set_state; auto.
-    - apply good_set_state; auto.
+    - split; [|rewrite !push_gas; auto].
+      eapply good_trans; [apply good_set_state; auto|]. apply good_set_state. apply good_set_state; auto.
+    - split; [apply good_set_state; auto | rewrite push_gas; auto].
   Qed.
 
-  Lemma escrow_add_good who v s : wf s -> good s (escrow_add who v s).
-  Proof. intros; apply good_set_state; auto. Qed.
+  Lemma escrow_add_good who v s : wf s -> good s (escrow_add who v s) /\ gas (escrow_add who v s) = gas s.
+  Proof. intros; split; [apply good_set_state; auto | unfold escrow_add; rewrite push_gas; auto]. Qed.
 
-  Lemma do_unstake_good cx t s : wf s -> good s (do_unstake cx t s).
+  Lemma do_unstake_good cx t s : wf s -> good s (do_unstake cx t s) /\ gas (do_unstake cx t s) = gas s.
   Proof.
     intros W. unfold do_unstake.
-    destruct (reg_status (dat s) (self cx) =? 0); [apply good_refl; auto|].
-    destruct (reg_stake (dat s) (self cx) <? t); [apply good_refl; auto|].
-    eapply good_trans; [apply take_stake_good; auto|]. apply escrow_add_good. apply take_stake_good; auto.
+    destruct (reg_status (dat s) (self cx) =? 0); [split; auto using good_refl|].
+    destruct (reg_stake (dat s) (self cx) <? t); [split; auto using good_refl|].
+    destruct (take_stake_good (self cx) t s W) as [GT ET].
+    destruct (escrow_add_good (origin cx) (t * unit18) _ (g_wf _ _ GT)) as [GE EE].
+    split; [eapply good_trans; eauto | congruence].
   Qed.
 
-  Lemma do_unstakeall_good cx s s' : wf s -> do_unstakeall cx s = Some s' -> good s s'.
+  Lemma do_unstakeall_good cx s s' : wf s -> do_unstakeall cx s = Some s' -> good s s' /\ gas s' = gas s.
   Proof.
     intros W. unfold do_unstakeall.
     destruct (reg_status (dat s) (self cx) =? 0); [discriminate|].
     intros H; inversion H; subst.
-    eapply good_trans; [apply take_stake_good; auto|]. apply escrow_add_good. apply take_stake_good; auto.
+    destruct (take_stake_good (self cx) (reg_stake (dat s) (self cx)) s W) as [GT ET].
+    destruct (escrow_add_good (self cx) (reg_stake (dat s) (self cx) * unit18) _ (g_wf _ _ GT)) as [GE EE].
+    split; [eapply good_trans; eauto | congruence].
   Qed.
 
-  Lemma finish_ok cx f clogs s o l s' :
-    wf s -> finish cx f clogs s = (o, l, s') -> good s s' /\ (static cx = true -> same s s').
+  Lemma finish_ok cx f fc clogs s o l s' :
+    wf s -> finish cx f fc clogs s = (o, l, s') -> good s s' /\ (static cx = true -> same s s') /\ gas s' <= gas s.
   Proof.
-    intros W H. unfold finish in H.
+    intros W H. unfold finish, oog in H.
+    destruct (charge (fst fc) s) as [s0|] eqn:C0.
+    2:{ inversion H; subst. splits; auto using good_refl, same_refl. lia. }
+    destruct (charge_ok _ _ _ C0 W) as (G0 & S0 & L0 & _).
+    assert (FIN : forall o1 l1 s1, good s0 s1 -> (static cx = true -> same s0 s1) -> gas s1 <= gas s0 ->
+              (o1, l1, s1) = (o, l, s') -> good s s' /\ (static cx = true -> same s s') /\ gas s' <= gas s).
+    { intros o1 l1 s1 G1 S1 L1 E. inversion E; subst. splits; [eapply good_trans; eauto | intros St; eapply same_trans; eauto | lia]. }
     destruct (static cx && fin_writes f) eqn:E.
-    { inversion H; subst. split; auto using good_refl, same_refl. }
-    destruct f; inversion H; subst; try (split; auto using good_refl, same_refl).
-    - apply do_selfdestruct_good; auto.
-    - intros St. rewrite St in E. cbn in E. discriminate.
+    { eapply FIN; [apply good_refl; apply G0 | intros; apply same_refl | lia | exact H]. }
+    assert (CH : forall c o1, (match charge c s0 with Some s1 => (o1, clogs, s1) | None => (OErr err_oog, [], s0) end) = (o, l, s') ->
+              good s s' /\ (static cx = true -> same s s') /\ gas s' <= gas s).
+    { intros c o1 HC. destruct (charge c s0) as [s1|] eqn:C1.
+      - destruct (charge_ok _ _ _ C1 (g_wf _ _ G0)) as (G1 & S1 & L1 & _). eapply FIN; eauto.
+      - eapply FIN; [apply good_refl; apply G0 | intros; apply same_refl | lia | exact HC]. }
+    destruct f; try (eapply CH; exact H).
+    - eapply FIN; [apply good_refl; apply G0 | intros; apply same_refl | lia | exact H].
+    - cbv zeta in H.
+      match type of H with (match charge ?c s0 with _ => _ end) = _ => destruct (charge c s0) as [s1|] eqn:C1 end.
+      + destruct (charge_ok _ _ _ C1 (g_wf _ _ G0)) as (G1 & S1 & L1 & _).
+        destruct (do_selfdestruct_good cx beneficiary s1 (g_wf _ _ G1)) as [GS ES].
+        eapply FIN; [eapply good_trans; eauto | | | exact H].
+        * intros St. rewrite St in E. cbn in E. discriminate.
+        * lia.
+      + eapply FIN; [apply good_refl; apply G0 | intros; apply same_refl | lia | exact H].
   Qed.
 
   Definition nocustom (l : list action) : Prop := forallb (fun a => negb (is_custom a)) l = true.
@@ -390,159 +499,194 @@ Section Frames.
   Definition sclause (cx : ctx) (l : list action) (s s' : state) : Prop :=
     static cx = true -> custom_free progs -> pc_exist (dat s) -> nocustom l -> same s s'.
 
+  Definition concl (cx : ctx) (l : list action) (s : state) (r : rres) : Prop :=
+    let '(_, _, s') := r in good s s' /\ sclause cx l s s' /\ gas s' <= gas s.
+
   Lemma sclause_die cx l s : sclause cx l s s.
   Proof. intros _ _ _ _; apply same_refl. Qed.
 
-  Lemma after_sub_ok cx rest r (k : list log -> state -> rres) clogs s o lg s' :
-    (let '(_, _, s1) := r in good s s1 /\ (static cx = true -> custom_free progs -> pc_exist (dat s) -> same s s1)) ->
-    (forall cl s1 o lg s', wf s1 -> k cl s1 = (o, lg, s') -> good s1 s' /\ sclause cx rest s1 s') ->
-    after_sub r k clogs = (o, lg, s') ->
-    good s s' /\ (static cx = true -> custom_free progs -> pc_exist (dat s) -> nocustom rest -> same s s').
-  Proof.
-    intros R K H. destruct r as [[o1 l1] s1]. destruct R as [G1 S1]. unfold after_sub in H.
-    assert (X : k (clogs ++ l1) s1 = (o, lg, s') ->
-                good s s' /\ (static cx = true -> custom_free progs -> pc_exist (dat s) -> nocustom rest -> same s s')).
-    { intros HK. destruct (K _ _ _ _ _ (g_wf _ _ G1) HK) as [G S].
-      split; [eapply good_trans; eauto|]. intros St CF PE NC.
-      eapply same_trans; [apply S1; auto|]. apply S; auto. eapply pc_exist_same; eauto. }
-    destruct o1; auto; inversion H; subst; split; auto; intros St CF PE NC; apply S1; auto.
-  Qed.
+  Lemma concl_die cx l s o lg : wf s -> concl cx l s (o, lg, s).
+  Proof. intros W. cbn. splits; auto using good_refl, sclause_die. lia. Qed.
 
   Lemma nocustom_cons a rest : nocustom (a :: rest) -> is_custom a = false /\ nocustom rest.
   Proof. unfold nocustom. cbn. intros H. apply andb_true_iff in H. destruct H as [A B]. split; auto. destruct (is_custom a); auto; discriminate. Qed.
 
-  Lemma run_acts_ok cx f : forall l lc clogs s o lg s',
-    wf s -> run_acts progs rec cx lc l f clogs s = (o, lg, s') ->
-    good s s' /\ sclause cx l s s'.
+  (* one step: from s to s1 by the action a, then the rest from s1 *)
+  Lemma concl_step cx a rest s s1 r :
+    good s s1 ->
+    (static cx = true -> custom_free progs -> pc_exist (dat s) -> is_custom a = false -> same s s1) ->
+    gas s1 <= gas s ->
+    concl cx rest s1 r -> concl cx (a :: rest) s r.
   Proof.
-    induction l as [|a rest IH]; intros lc clogs s o lg s' W H; cbn [run_acts] in H.
-    { destruct (l_fate lc) as [[|k]|].
-      - inversion H; subst. split; auto using good_refl, sclause_die.
-      - destruct (finish_ok _ _ _ _ _ _ _ W H); split; auto. intros St _ _ _; auto.
-      - destruct (finish_ok _ _ _ _ _ _ _ W H); split; auto. intros St _ _ _; auto. }
-    assert (MAIN : forall lc0,
-      (if static cx && refused_static a
-       then (OErr err_write_protection, [], s)
-       else match a with
-        | ASstore k v => run_acts progs rec cx lc0 rest f clogs (push (set_state (self cx) k v) s)
-        | ALog t =>
-            run_acts progs rec cx lc0 rest f (clogs ++ [mkLog (self cx) t (thash s) (txindex s) (logsize (dat s))])
-              (push (add_log (thash s) (mkLog (self cx) t (thash s) (txindex s) (logsize (dat s)))) s)
-        | ALogT k =>
-            run_acts progs rec cx lc0 rest f (clogs ++ [mkLog (self cx) (tstor (dat s) (self cx) k) (thash s) (txindex s) (logsize (dat s))])
-              (push (add_log (thash s) (mkLog (self cx) (tstor (dat s) (self cx) k) (thash s) (txindex s) (logsize (dat s)))) s)
-        | ATstore k v =>
-            if static cx then (OErr err_write_protection, [], s)
-            else run_acts progs rec cx lc0 rest f clogs (push (set_transient (self cx) k v) s)
-        | ACall kind target value =>
-            after_sub (do_call rec cx kind target value s) (run_acts progs rec cx lc0 rest f) clogs
-        | ACallCreated kind value =>
-            after_sub (do_call rec cx kind (l_created lc0) value s) (run_acts progs rec cx lc0 rest f) clogs
-        | ACreate value init =>
-            let '(o, lg, s') := do_create progs rec cx value init s in
-            let created := match o with
-                           | OOk => match oracle s with x :: _ => x | [] => 0 end
-                           | _ => 0
-                           end in
-            after_sub (o, lg, s') (run_acts progs rec cx (mkLoc created (l_auth lc0) (l_fate lc0)) rest f) clogs
-        | AStake t => run_acts progs rec cx lc0 rest f clogs (do_stake cx t s)
-        | AUnstake t => run_acts progs rec cx lc0 rest f clogs (do_unstake cx t s)
-        | AUnstakeAll =>
-            match do_unstakeall cx s with
-            | Some s' => run_acts progs rec cx lc0 rest f clogs s'
-            | None => (OErr err_custom, [], s)
-            end
-        | AAuth inv authority =>
-            run_acts progs rec cx (mkLoc (l_created lc0) (if self cx =? inv then Some authority else None) (l_fate lc0)) rest f clogs s
-        | AAuthCall n target value =>
-            match l_auth lc0 with
-            | None => run_acts progs rec cx lc0 rest f clogs (push (acl_add target) s)
-            | Some authority =>
-                if nonce_of (dat (push (acl_add target) s)) authority =? n
-                then after_sub (do_authcall rec cx authority target value (push (acl_add target) s)) (run_acts progs rec cx lc0 rest f) clogs
-                else run_acts progs rec cx lc0 rest f clogs (push (acl_add target) s)
-            end
-        end) = (o, lg, s') -> good s s' /\ sclause cx (a :: rest) s s').
-    { intros lc0 H0.
-      destruct (static cx && refused_static a) eqn:E.
-      { inversion H0; subst. split; auto using good_refl, sclause_die. }
-      assert (STEP : forall lc' cl s1, good s s1 ->
-                (static cx = true -> custom_free progs -> pc_exist (dat s) -> is_custom a = false -> same s s1) ->
-                run_acts progs rec cx lc' rest f cl s1 = (o, lg, s') ->
-                good s s' /\ sclause cx (a :: rest) s s').
-      { intros lc' cl s1 G1 S1 HR.
-        destruct (IH _ _ _ _ _ _ (g_wf _ _ G1) HR) as [G S].
-        split; [eapply good_trans; eauto|].
-        intros St CF PE NC. destruct (nocustom_cons _ _ NC) as [NA NR].
-        eapply same_trans; [apply S1; auto|]. apply S; auto. eapply pc_exist_same; eauto. }
-      assert (SUB : forall lc' r, (let '(_, _, s1) := r in good s s1 /\ (static cx = true -> custom_free progs -> pc_exist (dat s) -> is_custom a = false -> same s s1)) ->
-                after_sub r (run_acts progs rec cx lc' rest f) clogs = (o, lg, s') ->
-                good s s' /\ sclause cx (a :: rest) s s').
-      { intros lc' r R HA. destruct r as [[o1 l1] s1]. destruct R as [G1 S1].
-        unfold after_sub in HA.
-        assert (X : forall cl, run_acts progs rec cx lc' rest f cl s1 = (o, lg, s') -> good s s' /\ sclause cx (a :: rest) s s')
-          by (intros cl HR; eapply STEP; eauto).
-        destruct o1; eauto; inversion HA; subst; split; auto; intros St CF PE NC;
-          destruct (nocustom_cons _ _ NC) as [NA NR]; apply S1; auto. }
-      assert (NST : writes_flag a = true -> static cx = false).
-      { intros Wf. destruct (static cx); auto. cbn in E. unfold refused_static in E. rewrite Wf in E. discriminate. }
-      destruct a.
-      - eapply STEP; [apply good_set_state; auto | intros St; rewrite NST in St by reflexivity; discriminate | exact H0].
-      - eapply STEP; [apply good_push; auto using add_log_ok, kl_add_log | intros St; rewrite NST in St by reflexivity; discriminate | exact H0].
-      - eapply STEP; [apply good_push; auto using add_log_ok, kl_add_log | intros St; rewrite NST in St by reflexivity; discriminate | exact H0].
-      - destruct (static cx) eqn:St.
-        + inversion H0; subst; split; auto using good_refl, sclause_die.
-        + eapply STEP; [apply good_push; auto using set_transient_ok, kl_set_transient | intros X; discriminate | exact H0].
-      - destruct (do_call rec cx kind target value s) as [[o1 l1] s1] eqn:C.
-        destruct (do_call_ok _ _ _ _ _ _ _ _ W C) as (G1 & _ & S1).
-        eapply SUB; [|exact H0]. split; auto. intros St CF PE _. apply S1; auto.
-        intros K; subst kind. rewrite St in E. cbn in E.
-        destruct (value =? 0) eqn:V; [apply N.eqb_eq in V; auto | cbn in E; discriminate].
-      - destruct (do_create progs rec cx value init s) as [[o1 l1] s1] eqn:C.
-        destruct (do_create_ok _ _ _ _ _ _ _ W C) as (G1 & _).
-        eapply SUB; [|exact H0]. split; auto. intros St; rewrite NST in St by reflexivity; discriminate.
-      - destruct (do_call rec cx kind (l_created lc0) value s) as [[o1 l1] s1] eqn:C.
-        destruct (do_call_ok _ _ _ _ _ _ _ _ W C) as (G1 & _ & S1).
-        eapply SUB; [|exact H0]. split; auto. intros St CF PE _. apply S1; auto.
-        intros K; subst kind. rewrite St in E. cbn in E.
-        destruct (value =? 0) eqn:V; [apply N.eqb_eq in V; auto | cbn in E; discriminate].
-      - eapply STEP; [apply do_stake_good; auto | intros _ _ _ X; discriminate | exact H0].
-      - eapply STEP; [apply do_unstake_good; auto | intros _ _ _ X; discriminate | exact H0].
-      - destruct (do_unstakeall cx s) as [s1|] eqn:U.
-        + eapply STEP; [eapply do_unstakeall_good; eauto | intros _ _ _ X; discriminate | exact H0].
-        + inversion H0; subst; split; auto using good_refl, sclause_die.
-      - eapply STEP; [apply good_refl; auto | intros; apply same_refl | exact H0].
-      - assert (G0 : good s (push (acl_add target) s)) by (apply good_push; auto using acl_add_ok, kl_acl_add).
-        destruct (l_auth lc0) as [authority|].
-        + destruct (nonce_of (dat (push (acl_add target) s)) authority =? n).
-          * destruct (do_authcall rec cx authority target value (push (acl_add target) s)) as [[o1 l1] s1] eqn:C.
-            destruct (do_authcall_ok _ _ _ _ _ _ _ _ (g_wf _ _ G0) C) as (G1 & _).
-            eapply SUB; [|exact H0]. split; [eapply good_trans; eauto | intros _ _ _ X; discriminate].
-          * eapply STEP; [exact G0 | intros _ _ _ X; discriminate | exact H0].
-        + eapply STEP; [exact G0 | intros _ _ _ X; discriminate | exact H0]. }
-    destruct (l_fate lc) as [[|k0]|] eqn:FATE.
-    - inversion H; subst. split; auto using good_refl, sclause_die.
-    - cbv zeta in H. eapply MAIN; exact H.
-    - cbv zeta in H. eapply MAIN; exact H.
+    intros G1 S1 L1 C. destruct r as [[o lg] s']. destruct C as (G & S & L).
+    cbn. splits; [eapply good_trans; eauto | | lia].
+    intros St CF PE NC. destruct (nocustom_cons _ _ NC) as [NA NR].
+    eapply same_trans; [apply S1; auto|]. apply S; auto. eapply pc_exist_same; eauto.
+  Qed.
+
+  Lemma after_eff_ok cx a rest post (k : state -> rres) s s1 :
+    good s s1 ->
+    (static cx = true -> custom_free progs -> pc_exist (dat s) -> is_custom a = false -> same s s1) ->
+    gas s1 <= gas s ->
+    (forall s2, wf s2 -> concl cx rest s2 (k s2)) ->
+    concl cx (a :: rest) s (after_eff post k s1).
+  Proof.
+    intros G1 S1 L1 K. unfold after_eff.
+    destruct (charge post s1) as [s2|] eqn:C.
+    - destruct (charge_ok _ _ _ C (g_wf _ _ G1)) as (G2 & S2 & L2 & _).
+      eapply concl_step; [eapply good_trans; eauto | | lia | apply K; apply G2].
+      intros St CF PE NA. eapply same_trans; [apply S1; auto | exact S2].
+    - unfold oog. eapply concl_step; eauto. apply concl_die. apply G1.
+  Qed.
+
+  Lemma after_sub_ok cx a rest keep post (k : list log -> state -> rres) clogs s r :
+    (let '(_, _, s1) := r in
+       good s s1 /\ (static cx = true -> custom_free progs -> pc_exist (dat s) -> is_custom a = false -> same s s1) /\
+       keep + gas s1 <= gas s) ->
+    (forall cl s2, wf s2 -> concl cx rest s2 (k cl s2)) ->
+    concl cx (a :: rest) s (after_sub r keep post k clogs).
+  Proof.
+    intros R K. destruct r as [[o1 l1] s1]. destruct R as (G1 & S1 & L1). unfold after_sub.
+    assert (X : concl cx (a :: rest) s
+                 (match charge post (with_gas s1 (keep + gas s1)) with
+                  | Some s'' => k (clogs ++ l1) s''
+                  | None => oog s1 end)).
+    { set (s1g := with_gas s1 (keep + gas s1)) in *.
+      assert (G1g : good s s1g) by (eapply good_trans; [exact G1 | apply with_gas_good; apply G1]).
+      assert (S1g : static cx = true -> custom_free progs -> pc_exist (dat s) -> is_custom a = false -> same s s1g)
+        by (intros St CF PE NA; eapply same_trans; [apply S1; auto | apply with_gas_same]).
+      destruct (charge post s1g) as [s2|] eqn:C.
+      - destruct (charge_ok _ _ _ C (g_wf _ _ G1g)) as (G2 & S2 & L2 & _).
+        eapply concl_step; [eapply good_trans; eauto | | | apply K; apply G2].
+        + intros St CF PE NA. eapply same_trans; [apply S1g; auto | exact S2].
+        + cbn in L2. lia.
+      - unfold oog. eapply concl_step; [exact G1 | exact S1 | lia | apply concl_die; apply G1]. }
+    destruct o1; auto; eapply concl_step; eauto; try lia; apply concl_die; apply G1.
+  Qed.
+
+  Lemma run_acts_ok cx f fc : forall l lc cs clogs s,
+    wf s -> concl cx l s (run_acts progs rec cx lc l cs f fc clogs s).
+  Proof.
+    induction l as [|a rest IH]; intros lc cs clogs s W; cbn [run_acts].
+    { destruct (l_fate lc) as [[|k]|]; [apply concl_die; auto | |];
+        (destruct (finish cx f fc clogs s) as [[o lg] s'] eqn:F;
+         destruct (finish_ok _ _ _ _ _ _ _ _ W F) as (G & S & L); cbn; splits; auto; intros St _ _ _; auto). }
+    destruct (l_fate lc) as [[|k0]|] eqn:FATE; [apply concl_die; auto | |];
+    (destruct (hd free_cost cs) as [[pre post] req]; cbv zeta;
+     destruct (charge pre s) as [s0|] eqn:C0; [|apply concl_die; auto];
+     destruct (charge_ok _ _ _ C0 W) as (G0 & S0 & L0 & _);
+     assert (W0 : wf s0) by apply G0;
+     assert (LIFT : forall r, concl cx (a :: rest) s0 r -> concl cx (a :: rest) s r)
+       by (intros [[o lg] s'] (G & S & L); cbn; splits; [eapply good_trans; eauto | | lia];
+           intros St CF PE NC; eapply same_trans; [exact S0 | apply S; auto; eapply pc_exist_same; eauto]);
+     apply LIFT;
+     destruct (static cx && refused_static a) eqn:E; [apply concl_die; auto |];
+     assert (NST : writes_flag a = true -> static cx = false)
+       by (intros Wf; destruct (static cx); auto; cbn in E; unfold refused_static in E; rewrite Wf in E; discriminate);
+     assert (KK : forall lc' cl s2, wf s2 -> concl cx rest s2 (run_acts progs rec cx lc' rest (tl cs) f fc cl s2))
+       by (intros; apply IH; auto);
+     destruct a;
+     [ (* SSTORE *)
+       apply after_eff_ok; [apply good_set_state; auto | intros St; rewrite NST in St by reflexivity; discriminate | rewrite push_gas; lia | intros; apply KK; auto]
+     | (* LOG *)
+       apply after_eff_ok; [apply good_push; auto using add_log_ok, kl_add_log | intros St; rewrite NST in St by reflexivity; discriminate | rewrite push_gas; lia | intros; apply KK; auto]
+     | (* LOG of TLOAD *)
+       apply after_eff_ok; [apply good_push; auto using add_log_ok, kl_add_log | intros St; rewrite NST in St by reflexivity; discriminate | rewrite push_gas; lia | intros; apply KK; auto]
+     | (* TSTORE *)
+       destruct (static cx) eqn:St;
+       [ apply concl_die; auto
+       | apply after_eff_ok; [apply good_push; auto using set_transient_ok, kl_set_transient | intros X; congruence | rewrite push_gas; lia | intros; apply KK; auto] ]
+     | (* CALL *)
+       destruct (N.ltb_spec (gas s0) (call_base kind target value (dat s0))); [apply concl_die; auto |];
+       apply after_sub_ok; [ | intros; apply KK; auto];
+       destruct (do_call rec cx kind target value (with_gas s0 (forward req (gas s0 - call_base kind target value (dat s0)) + call_stipend kind value))) as [[o1 l1] s1] eqn:CC;
+       destruct (do_call_ok _ _ _ _ _ _ _ _ (g_wf _ _ (with_gas_good s0 _ W0)) CC) as (G1 & _ & S1 & L1);
+       splits;
+       [ eapply good_trans; [apply with_gas_good; auto | exact G1]
+       | intros St CF PE _; eapply same_trans; [apply with_gas_same | apply S1; auto];
+         intros K; subst kind; rewrite St in E; cbn in E;
+         destruct (value =? 0) eqn:V; [apply N.eqb_eq in V; auto | cbn in E; discriminate]
+       | cbn [gas with_gas] in L1; eapply call_gas_le; [lia | apply stipend_le_base | exact L1] ]
+     | (* CREATE *)
+       destruct (do_create progs rec cx value init (with_gas s0 (gas s0 - gas s0 / 64))) as [[o1 l1] s1] eqn:CC;
+       destruct (do_create_ok _ _ _ _ _ _ _ (g_wf _ _ (with_gas_good s0 _ W0)) CC) as (G1 & _ & L1);
+       apply (after_sub_ok cx _ rest _ _ _ _ s0 (o1, l1, s1)); [ | intros; apply KK; auto];
+       splits;
+       [ eapply good_trans; [apply with_gas_good; auto | exact G1]
+       | intros St; rewrite NST in St by reflexivity; discriminate
+       | cbn [gas with_gas] in L1; apply create_gas_le; exact L1 ]
+     | (* CALL the created contract *)
+       destruct (N.ltb_spec (gas s0) (call_base kind (l_created (tick lc)) value (dat s0))); [apply concl_die; auto |];
+       apply after_sub_ok; [ | intros; apply KK; auto];
+       destruct (do_call rec cx kind (l_created (tick lc)) value (with_gas s0 (forward req (gas s0 - call_base kind (l_created (tick lc)) value (dat s0)) + call_stipend kind value))) as [[o1 l1] s1] eqn:CC;
+       destruct (do_call_ok _ _ _ _ _ _ _ _ (g_wf _ _ (with_gas_good s0 _ W0)) CC) as (G1 & _ & S1 & L1);
+       splits;
+       [ eapply good_trans; [apply with_gas_good; auto | exact G1]
+       | intros St CF PE _; eapply same_trans; [apply with_gas_same | apply S1; auto];
+         intros K; subst kind; rewrite St in E; cbn in E;
+         destruct (value =? 0) eqn:V; [apply N.eqb_eq in V; auto | cbn in E; discriminate]
+       | cbn [gas with_gas] in L1; eapply call_gas_le; [lia | apply stipend_le_base | exact L1] ]
+     | (* STAKE *)
+       destruct (do_stake_good cx t s0 W0) as [GS ES];
+       apply after_eff_ok; [exact GS | intros _ _ _ X; discriminate | lia | intros; apply KK; auto]
+     | (* UNSTAKE *)
+       destruct (do_unstake_good cx t s0 W0) as [GS ES];
+       apply after_eff_ok; [exact GS | intros _ _ _ X; discriminate | lia | intros; apply KK; auto]
+     | (* UNSTAKEALL *)
+       destruct (do_unstakeall cx s0) as [s1|] eqn:U;
+       [ destruct (do_unstakeall_good _ _ _ W0 U) as [GS ES];
+         apply after_eff_ok; [exact GS | intros _ _ _ X; discriminate | lia | intros; apply KK; auto]
+       | apply concl_die; auto ]
+     | (* AUTH *)
+       apply after_eff_ok; [apply good_refl; auto | intros; apply same_refl | lia | intros; apply KK; auto]
+     | (* AUTHCALL *)
+       cbv zeta;
+       assert (GA : good s0 (push (acl_add target) s0)) by (apply good_push; auto using acl_add_ok, kl_acl_add);
+       pose proof (push_gas (acl_add target) s0) as EA;
+       match goal with |- context [if gas ?sa <? ?b then _ else _] => set (base := b) in * end;
+       destruct (N.ltb_spec (gas (push (acl_add target) s0)) base);
+       [ eapply concl_step; [exact GA | intros _ _ _ X; discriminate | lia | apply concl_die; apply GA] |];
+       set (sA := push (acl_add target) s0) in *;
+       assert (WA : wf sA) by apply GA;
+       assert (FW : forward req (gas sA - base) <= gas sA - base)
+         by apply forward_le;
+       assert (BURNT : forall g, g <= gas s0 -> good s0 (with_gas sA g) /\ gas (with_gas sA g) <= gas s0)
+         by (intros g Hg; split; [eapply good_trans; [exact GA | apply with_gas_good; auto] | cbn; lia]);
+       destruct (l_auth (tick lc)) as [authority|];
+       [ destruct (nonce_of (dat sA) authority =? n);
+         [ destruct (do_authcall rec cx authority target value (with_gas sA (forward req (gas sA - base)))) as [[o1 l1] s1] eqn:CC;
+           destruct (do_authcall_ok _ _ _ _ _ _ _ _ (g_wf _ _ (with_gas_good sA _ WA)) CC) as (G1 & _ & L1);
+           apply (after_sub_ok cx _ rest _ _ _ _ s0 (o1, l1, s1)); [ | intros; apply KK; auto];
+           splits;
+           [ eapply good_trans; [exact GA |]; eapply good_trans; [apply with_gas_good; auto | exact G1]
+           | intros _ _ _ X; discriminate
+           | cbn [gas with_gas] in L1; lia ]
+         | destruct (BURNT (gas sA - base - forward req (gas sA - base))) as [GB LB]; [lia|];
+           apply after_eff_ok; [exact GB | intros _ _ _ X; discriminate | exact LB | intros; apply KK; auto] ]
+       | destruct (BURNT (gas sA - base - forward req (gas sA - base))) as [GB LB]; [lia|];
+         apply after_eff_ok; [exact GB | intros _ _ _ X; discriminate | exact LB | intros; apply KK; auto] ]
+     ]).
   Qed.
 
   Lemma run_code_ok cx c s o l s' :
-    wf s -> run_code progs rec cx c s = (o, l, s') -> good s s' /\ static_same progs (static cx) s s'.
+    wf s -> run_code progs rec cx c s = (o, l, s') ->
+    good s s' /\ static_same progs (static cx) s s' /\ gas s' <= gas s.
   Proof.
     unfold run_code. intros W H. destruct (lookup progs c) as [p|] eqn:L.
     - destruct (pop_oracle s) as [x s1] eqn:P.
-      destruct (pop_oracle_good _ _ _ W P) as [G1 S1].
-      destruct (run_acts_ok cx (fin p) _ _ _ _ _ _ _ (g_wf _ _ G1) H) as [G S].
-      split; [eapply good_trans; eauto|]. intros St CF PE. eapply same_trans; [exact S1|]. apply S; auto.
+      destruct (pop_oracle_good _ _ _ W P) as [G1 S1]. pose proof (pop_oracle_gas _ _ _ P) as PG.
+      pose proof (run_acts_ok cx (fin p) (fcost p) (acts p) (mkLoc 0 None (fate_of x)) (pcost p) [] s1 (g_wf _ _ G1)) as C.
+      rewrite H in C. destruct C as (G & S & LG).
+      splits; [eapply good_trans; eauto | | lia]. intros St CF PE. eapply same_trans; [exact S1|]. apply S; auto.
       + eapply pc_exist_same; eauto.
       + exact (CF _ _ L).
-    - inversion H; subst; split; auto using good_refl. intros _ _ _; apply same_refl.
+    - inversion H; subst; splits; auto using good_refl; [intros _ _ _; apply same_refl | lia].
   Qed.
 End Frames.
 
 Lemma run_ok progs fuel : rec_ok progs (run progs fuel).
 Proof.
   induction fuel as [|f IH]; intros cx c s o l s' W H; cbn [run] in H.
-  - inversion H; subst; split; auto using good_refl. intros _ _ _; apply same_refl.
+  - inversion H; subst; splits; auto using good_refl; [intros _ _ _; apply same_refl | lia].
   - eapply run_code_ok; eauto.
 Qed.
